@@ -194,10 +194,16 @@ class FuncGen(object):
             self.note('if')
             cond = self.expr(I32, depth - 1)
             self.labels.append(t)
-            th = self.stmts(depth - 1, ch.below(2)) + self.expr(t, depth - 1)
-            el = self.stmts(depth - 1, ch.below(2)) + self.expr(t, depth - 1)
+            arms = []
+            dying = ch.below(4) if self.f.control else 0        # 1: then-arm leaves by a branch, 2: else-arm, 3: both
+            for which in (1, 2):
+                if dying & which:
+                    arms.append(self.stmts(depth - 1, ch.below(2)) + self.dying_tail(t, depth))
+                    self.note('if_arm_ends_in_branch')
+                else:
+                    arms.append(self.stmts(depth - 1, ch.below(2)) + self.expr(t, depth - 1))
             self.labels.pop()
-            return cond + [('if', t, th, el)]
+            return cond + [('if', t, arms[0], arms[1])]
         if kind == 'brblock':
             return self.brblock(t, depth)
         if kind == 'loopexpr':
@@ -266,6 +272,40 @@ class FuncGen(object):
                 body += [('br', 0)] + self.dead(t)
         self.labels.pop()
         return [('block', t, body)]
+
+    def dying_tail(self, t, depth):
+        """instructions that never fall through: leave the innermost label of type t (or the function) by br / br_table / return
+        / unreachable, with 0-2 extra operands below the carried value and possibly with no value at all, plus dead code"""
+        ch = self.ch
+        out = []
+        nextra = ch.below(3)
+        for _ in range(nextra):
+            out += self.expr(ch.pick(self.f.types), depth - 2)
+        if nextra:
+            self.note('extra_operands')
+        k = ch.below(6)
+        targets = [d for d, lt in enumerate(reversed(self.labels)) if lt == t]
+        void_targets = [d for d, lt in enumerate(reversed(self.labels)) if lt is None]
+        if k == 0:
+            return out + [('unreachable',)] + self.dead(t)
+        if k == 1 and void_targets:
+            self.note('br_void_from_value_context')
+            return out + [('br', ch.pick(void_targets))] + self.dead(t)
+        if k == 2 and self.result is not None:
+            self.note('return_value')
+            return out + self.expr(self.result, depth - 1) + [('return',)] + self.dead(t)
+        if k == 3 and self.result is None:
+            return out + [('return',)] + self.dead(t)
+        if k == 4 and targets:
+            self.note('br_table')
+            tl = [ch.pick(targets) for _ in range(ch.below(4))]
+            return out + self.expr(t, depth - 1) + self.expr(I32, depth - 2) + [('br_table', tl, ch.pick(targets))] + self.dead(t)
+        if targets:
+            tgt = ch.pick(targets)
+            if tgt > 0:
+                self.note('br_outer')
+            return out + self.expr(t, depth - 1) + [('br', tgt)] + self.dead(t)
+        return out + [('unreachable',)] + self.dead(t)
 
     def dead(self, t):
         """valid code after an unconditional branch (stack-polymorphic)"""
